@@ -4,8 +4,10 @@ from specs import misc, fsutil, snapshot, restore, c01_lemmas
 LEVEL = 'proof'
 UNITS = fsutil.units('C01') + [
     snapshot.flatten_unit('C01'),
+    snapshot.head_unit('C01'),
     snapshot.stream_unit('C01'),
     snapshot.producer_unit('C01'),
+    snapshot.run_unit('C01'),
     snapshot.chunk_done_unit('C01'),
     restore.plan_unit('C01'),
     restore.write_ref_unit('C01'),
@@ -13,6 +15,8 @@ UNITS = fsutil.units('C01') + [
     restore.write_part_unit('C01'),
     c01_lemmas.lemmas('C01'),
 ] + misc.metadata_units('C01') + misc.hashlib_adapter_units('C01')
+from specs import families as _families
+UNITS = _families.with_families('C01', UNITS)
 BOUNDED = [
     {'name': 'C01.e2e', 'script': 'bounded/c01_e2e.py', 'timeout': 1200,
      'bound': '<= 4 files; sizes from the boundary family around alignment 4, min, max, 2*max (max <= 64); '
